@@ -207,7 +207,9 @@ var pools = map[string][]string{
 func generate(rng *rand.Rand) Case {
 	sysName := []string{"NPM", "Maven", "PyPI"}[rng.Intn(3)]
 	names := []string{"a", "B", "b", "c"}[:2+rng.Intn(3)]
-	depNames := []string{"x", "Y", "y", "a", "zz"}
+	// Names whose only capitals are outside ASCII included: npm's order
+	// folds case for every letter.
+	depNames := []string{"x", "Y", "y", "a", "zz", "\u00c9b", "\u00e9a", "\u042f\u043d", "\u044f\u0434"}
 	var ops []Op
 	latest := map[string]string{}     // package -> version holding latest
 	cur := map[string]map[string]Op{} // package -> version -> last add
